@@ -16,11 +16,13 @@ def main():
             os.remove(os.path.join(bdir, f))
     streams = []
     streams.append(("dp", C.gen_ops("gen_dp.py", seed, 500, outfile=os.path.join(C.scratch(), "cov_dp.ops"))))
-    streams.append(("io", C.gen_ops("gen_io.py", seed, 400)))
+    streams.append(("io", C.gen_ops("gen_io.py", seed, 1)))
     streams.append(("misc", C.gen_ops("gen_misc.py", seed, 400)))
     streams.append(("bpm", C.gen_ops("gen_bpm.py", seed, "--random", 300, "--trees", 8, "--matrices", 15)))
     streams.append(("kmeans", C.gen_ops("gen_kmeans.py", seed)))
     streams.append(("pipe", C.gen_ops("gen_pipe.py", seed, 1)))
+    streams.append(("pipefile", C.gen_ops("gen_pipefile.py", seed, 1)))
+    streams.append(("cli", C.gen_ops("gen_cli.py", seed, 100)))
     for f in sorted(os.listdir(C.CORPUS)):
         streams.append(("corpus:" + f, [l.strip() for l in open(os.path.join(C.CORPUS, f)) if l.strip()][:400]))
     n = 0
@@ -35,23 +37,38 @@ def main():
     out = os.path.join(C.VERIF, "coverage")
     shutil.rmtree(out, ignore_errors=True)
     os.makedirs(out)
-    rows = []
-    for f in sorted(os.listdir(bdir)):
+    # one gcov run per object file into its own directory (a library file #included by a shim is reported under the shim's object; inline
+    # helpers appear under several objects): merge per source line, executed if executed anywhere
+    merged = {}
+    for k, f in enumerate(sorted(os.listdir(bdir))):
         if not f.endswith(".gcda"):
             continue
-        p = subprocess.run(["gcov", "-o", bdir, os.path.join(bdir, f)], cwd=out, stdout=subprocess.PIPE, stderr=subprocess.STDOUT)
-    for g in sorted(os.listdir(out)):
-        if not g.endswith(".gcov"):
-            continue
-        txt = open(os.path.join(out, g), errors="replace").read().splitlines()
-        src = next((l.split("Source:")[1] for l in txt[:3] if "Source:" in l), g)
-        if "/lib/src/" not in src and "/src/run_kalign.c" not in src and "/src/parameters.c" not in src:
-            os.remove(os.path.join(out, g))
-            continue
-        ex = sum(1 for l in txt if re.match(r"\s*\d+\*?:", l))
-        un = [l for l in txt if re.match(r"\s*#####:", l)]
-        tot = ex + len(un)
-        rows.append((src.replace(C.REPO + "/", ""), ex, tot, un))
+        od = os.path.join(out, "g%d" % k)
+        os.makedirs(od)
+        subprocess.run(["gcov", "-o", bdir, os.path.join(bdir, f)], cwd=od, stdout=subprocess.PIPE, stderr=subprocess.STDOUT)
+        for g in os.listdir(od):
+            if not g.endswith(".gcov"):
+                continue
+            txt = open(os.path.join(od, g), errors="replace").read().splitlines()
+            src = next((l.split("Source:")[1] for l in txt[:3] if "Source:" in l), g)
+            src = os.path.normpath(os.path.join(bdir, src)) if not os.path.isabs(src) else src
+            if "/lib/src/" not in src and not src.endswith("/src/run_kalign.c") and not src.endswith("/src/parameters.c"):
+                continue
+            d = merged.setdefault(src, {})
+            for l in txt:
+                m = re.match(r"\s*([0-9]+\*?|#####|-):\s*(\d+):(.*)$", l)
+                if not m or m.group(1) == "-":
+                    continue
+                ln = int(m.group(2))
+                hit = m.group(1) != "#####"
+                prev = d.get(ln, (False, m.group(3)))
+                d[ln] = (prev[0] or hit, m.group(3))
+        shutil.rmtree(od)
+    rows = []
+    for src, d in merged.items():
+        ex = sum(1 for v in d.values() if v[0])
+        un = ["%6d:%s" % (ln, v[1]) for ln, v in sorted(d.items()) if not v[0]]
+        rows.append((src.replace(C.REPO + "/", ""), ex, len(d), un))
     rows.sort()
     with open(os.path.join(out, "SUMMARY.txt"), "w") as fo:
         for src, ex, tot, un in rows:
@@ -63,9 +80,6 @@ def main():
             fo.write("\n== %s\n" % src)
             for l in un:
                 fo.write(l + "\n")
-    for g in os.listdir(out):
-        if g.endswith(".gcov"):
-            os.remove(os.path.join(out, g))
     print("total ops", n, "-> coverage/SUMMARY.txt")
 
 
